@@ -252,6 +252,13 @@ def run_spec(spec):
                     log.add('cancel.begin', idx=i)
                     futures[i].cancel()
                     log.add('cancel.end', idx=i)
+                if t.get('poll') and i in futures:
+                    # the caller polls the transfer with a short timeout while it is (most likely) still in flight
+                    try:
+                        futures[i].result(timeout=0.0005)
+                        log.add('poll.result', idx=i, exc=None)
+                    except BaseException as e:  # noqa
+                        log.add('poll.result', idx=i, exc=repr(e)[:80])
         finally:
             tls.submitting = None
             sub_done.set()
@@ -605,6 +612,8 @@ def gen_cases(tier, seed):
                 for j in range(n - 1):
                     k, extra = rng.choice(kinds)
                     ts.append(dict({'kind': k, 'outcome': 'ok', 'size': rng.choice([5, 40]), 'subs': rng.choice([1, 2])}, **extra))
+                    if rng.random() < 0.4:
+                        ts[-1]['poll'] = True  # result(timeout=...) that times out before the exit
                 cases.append({'seed': rng.randrange(1 << 30), 'permits': n + 1, 'transfers': ts, 'order': 'fifo', 'family': 'exit-barrier',
                               'exit': rng.choice(['shutdown', 'with']), 'crt_threads': rng.choice([2, 3]),
                               'window': {'file': 'crt.py', 'line': line[1], 'nth': nth, 'action': 'pause', 'name': f'crt.py:{line[1]}:{line[2]}', 'wait': 0.2}})
